@@ -130,7 +130,28 @@ def run(tier, seed):
                 sep = lambda: rng.choice(["\n", "\n\n", " ", "\n; a comment (with parens\n", "\n   ", "\r\n"])
                 text = rng.choice(["", "\n", "; header\n", "   "]) + "".join(p + sep() for p in parts[:-1]) + parts[-1] + rng.choice(["", "\n", "  ; trailing\n", "\n\n(define after 1)\n"])
                 cases.append({"fault": f, "context": c, "text": text, "nforms": len(forms), "offender": g.offender, "ndefs": len(defs)}); n += 1
-    jobs = [{"id": "c15", "interps": [{"stdlib": True}], "steps": [{"src": cs["text"]}], "fuel": 100000} for cs in cases]
+    # identifiers that come from a macro template (a user macro calling an undefined helper; unless/case/or on an interpreter that did not import
+    # not/memv): the offending identifier is not in the failing form's text, so the location has to fall back into the failing form
+    for k in range(per_cell * 2):
+        name = "helper%d" % rng.randint(1000, 9999)
+        macro = rng.choice(["(define-syntax call-it (syntax-rules () ((call-it a) (%s a))))" % name,
+                            "(define-syntax get-it\n  (syntax-rules ()\n    ((get-it a b ...)\n     (list a\n       %s b ...))))" % name,
+                            "(define-syntax twice-it (syntax-rules () ((twice-it a) (begin a (%s) a))))" % name])
+        use = {"call-it": "(call-it 1)", "get-it": "(get-it 1 2 3)", "twice-it": "(twice-it (list 1))"}[macro.split()[1]]
+        use = rng.choice(["%s", "(list 1\n  %s)", "(car (list %s))", "(if #t\n    %s\n    0)"]) % use
+        pre = ["(define filler%d %d)" % (i, i) for i in range(rng.choice([0, 2, 9, 40]))]
+        pos = rng.randrange(len(pre) + 1)
+        forms_t = pre[:pos] + [macro] + pre[pos:] + [use]
+        text = "\n".join(forms_t) + rng.choice(["", "\n"])
+        cases.append({"fault": "template-identifier", "context": "user-macro", "text": text, "nforms": len(forms_t), "offender": None, "ndefs": 0})
+    bare = []
+    for k in range(per_cell):
+        body = rng.choice(["(unless #f 1 2)", "(case 3 ((1 2) 'a) (else 'b))", "(unless (car '(#f)) 'x 'y)", "(case 1 ((1) => car))"])
+        pre = ["(define filler%d %d)" % (i, i) for i in range(rng.choice([0, 3, 12]))]
+        text = "(import (only (scheme base) car list))\n" + "\n".join(pre + [body]) + "\n"
+        bare.append({"fault": "template-identifier", "context": "bundled-macro-without-its-helpers", "text": text, "nforms": len(pre) + 2, "offender": None, "ndefs": 0, "bare": True})
+    cases += bare
+    jobs = [{"id": "c15", "interps": [{"stdlib": not cs.get("bare"), "natives": not cs.get("bare")}], "steps": [{"src": cs["text"]}], "fuel": 100000} for cs in cases]
     recs = core.run_jobs(jobs, "dev", timeout=900 if tier == "quick" else 3000, tag="c15")
     for cs, rec in zip(cases, recs):
         ctx.evaluations += 1
